@@ -244,7 +244,13 @@ func formatNode(builder *OutputBuilder, rootExpr pgsql.SyntaxNode) error {
 				exprStack = append(exprStack, pgsql.FormattingLiteral(" desc"))
 			}
 
-			exprStack = append(exprStack, typedNextExpr.Expression)
+			// A bare identifier in this position names an output column by its alias, so it is written the way the
+			// alias itself is
+			if identifier, isIdentifier := typedNextExpr.Expression.(pgsql.Identifier); isIdentifier {
+				exprStack = append(exprStack, pgsql.FormattingLiteral(quoteAlias(identifier)))
+			} else {
+				exprStack = append(exprStack, typedNextExpr.Expression)
+			}
 
 		case pgsql.Wildcard:
 			builder.Write("*")
